@@ -104,10 +104,29 @@ theorem write_time_released (c : Conn) (hfix : c.txFixed = false) (now0 now : In
   have h2 : F.endOfTxReleasesWriteTime = true := rfl
   cases hw : c.writeTime <;> simp [Conn.begin, Conn.endTx, h1, h2, hw, hfix]
 
+/-- **ROLLBACK after a vacuum returns to the vacuumed tree** (F44): a transaction that has
+    written to the table without changing it is open (`live = snapshot`), vacuum runs, the
+    transaction is rolled back — the connection is on the vacuumed tree, never on the tree from
+    before the vacuum, whose storage is gone -/
+theorem rollback_after_vacuum (vac : Table K V → Table K V) (t : Table K V) :
+    let t1 : Tx K V := { live := t, snapshot := some t }
+    ((t1.vacuum F vac).rollback F).live = vac t ∧ ((t1.vacuum F vac).rollback F).snapshot = none := by
+  have h1 : F.vacuumRepointsSnapshot = true := by decide
+  have h2 : F.rollbackRestoresSnapshot = true := by decide
+  simp [Tx.vacuum, Tx.rollback, h1, h2]
+
+/-- without the repair the rollback lands on the pre-vacuum tree -/
+example :
+    let F0 : Facts := { F with vacuumRepointsSnapshot := false }
+    let t1 : Tx Nat Nat := { live := [(1, { mod := 1, row := { deleted := true, dut := 1, cols := [] } })],
+                             snapshot := some [(1, { mod := 1, row := { deleted := true, dut := 1, cols := [] } })] }
+    ((t1.vacuum F0 (fun _ => [])).rollback F0).live ≠ [] := by decide
+
 theorem txn_facts :
     F.beginClonesTree = true ∧ F.rollbackRestoresSnapshot = true ∧ F.commitKeepsSnapshotOnError = true ∧
     F.beginFixesWriteTime = true ∧ F.endOfTxReleasesWriteTime = true ∧
-    F.refreshRefusesDirty = true ∧ F.vacuumRefusesDirty = true ∧ F.syncSkipsRO = true := by
+    F.refreshRefusesDirty = true ∧ F.vacuumRefusesDirty = true ∧ F.syncSkipsRO = true ∧
+    F.vacuumRepointsSnapshot = true := by
   decide
 
 /-- the rollback that "optimises" clean trees away (seeded change): a failed commit leaves the
